@@ -25,7 +25,7 @@ Definition cstate_eqb (a b : cstate) : bool :=
   match a, b with Closed, Closed | CanRead, CanRead | CanWrite, CanWrite | Open, Open => true | _, _ => false end.
 
 (* The attributes of a connection object that HttpLayer.get_connection / register_connection read.
-   c_server = isinstance(connection, Server); c_error = bool(connection.error); c_h2 = (connection.alpn == b"h2"). *)
+   c_server = isinstance(connection, Server); c_error = bool(connection.error); c_h2 = (connection.alpn is the bytes h2). *)
 Record conn := mkConn {
   c_server : bool;
   c_address : option addr;
